@@ -68,6 +68,12 @@ def gen(rng, n, tier):
         elif r < 0.75:
             meth = rng.choice(["numpy", "numpy", "fixed_width", "fixed_width", "integer", "pretty", "pretty", "quantile", "exponential", "static", "countname", "scott", "freedman", "blocks"])
             data = gen_data(rng, positive=meth == "exponential", n=(rng.choice([8, 20, 60]) if meth in ("scott", "freedman", "blocks") else None))
+            if meth in ("pretty", "fixed_width") and rng.random() < 0.3:
+                # round data: the extremes are multiples of every candidate width (10^k * {1, 2, 2.5, 5}), so the maximum sits
+                # exactly on a grid line and needs a bin of its own when the right edge is excluded
+                sc = Fr(rng.choice([1, 1, 10, 100, 1000])) / rng.choice([1, 1, 2, 4])
+                top = rng.choice([10, 20, 50, 100, 100, 200, 1000])
+                data = [sc * rng.randint(0, top) for _ in range(rng.choice([3, 10, 30]))] + [sc * top, sc * 0 if rng.random() < 0.7 else sc * rng.randint(1, top // 2)]
             mn, mx = min(data), max(data)
             rngarg = "none"
             if rng.random() < 0.3 and meth not in ("quantile", "static", "countname", "scott", "freedman", "blocks"):
